@@ -63,7 +63,12 @@ core::arch::global_asm!(
     // RSP and RFLAGS are what iretq produced
     "pushfq",
     "pop rax",
-    "cld",
+    // back to harness flags: clear DF and NT (NT may come from the generated frame image and must
+    // not survive: a later iretq with NT set would fault)
+    "mov rcx, rax",
+    "and rcx, -17409",
+    "push rcx",
+    "popfq",
     "mov rdi, [rip + {args}]",
     "mov [rdi + 64], rax",
     "mov [rdi + 56], rsp",
